@@ -1,6 +1,59 @@
-(* C25 — placeholder while the proofs are being written (replaced below). *)
-From Coq Require Import List NArith ZArith Bool.
-From HV Require Import Model.Heap.
-Theorem C25_placeholder_partial : forall n : nat, n = n.
-Proof. reflexivity. Qed.
-Print Assumptions C25_placeholder_partial.
+(* C25 — Expiry-indexed sets behave like an ordered set.  Property theorems only.
+   Models: Model/Heap.v (internal/heap on container/heap), Model/EHeap.v (internal/eheap), Model/EMap.v
+   (internal/emap).  Every theorem quantifies over ALL operation sequences. *)
+From Coq Require Import List NArith ZArith Bool Permutation Sorted.
+Import ListNotations.
+From HV Require Import Model.Heap Model.EHeap Model.EMap Proofs.Heap_proofs Proofs.EHeap_proofs Proofs.EMap_proofs.
+
+(* Array heap (min or max).  After any sequence of Push (Index = Len, as emap/eheap do) / Pop / Remove(i):
+   every entry's Index field equals its position, no two entries share an ID, and the heap order holds at
+   every parent/child pair (sift-up/sift-down restore it) — [hwf]. *)
+Theorem C25_heap_invariant : forall (A : Type) (mn : bool) (ops : list (hop A)),
+  hwf A mn (fst (hrun A mn [] ops)).
+Proof. intros A mn ops. apply hrun_wf, hwf_nil. Qed.
+Print Assumptions C25_heap_invariant.
+
+(* ... and each operation changes the multiset of (ID, Item, Val) triples as specified: Push adds the triple
+   unless the ID is present (then nothing changes); Pop removes and returns the root, which is a best entry;
+   Remove(i) removes and returns the entry at position i; out-of-range/empty leave the heap unchanged. *)
+Theorem C25_heap_multiset : forall (A : Type) (mn : bool) (l : list (entry A)) (o : hop A),
+  hwf A mn l ->
+  hwf A mn (fst (hstep A mn l o)) /\ hstep_spec A mn l o (fst (hstep A mn l o)) (snd (hstep A mn l o)).
+Proof. exact hstep_ok. Qed.
+Print Assumptions C25_heap_multiset.
+
+(* ExpiryHeap refines a finite set of items with unique ids ordered by expiry: over all sequences of
+   Add / Remove / Has / PeekMin / PopMin / SetMin / Len the outputs are those allowed by [spec_step]:
+   Add is idempotent per id, Has = membership, Remove(id) removes and returns exactly the item with that id,
+   PeekMin/PopMin return an item of minimum expiry, SetMin t removes and returns exactly the items with
+   expiry < t (in non-decreasing expiry order) and keeps exactly those with expiry >= t. *)
+Theorem C25_eheap_refines : forall (A : Type) (gid : A -> N) (gexp : A -> Z) (ops : list (eop A)),
+  spec_trace A gid gexp [] ops (snd (eh_run A gid gexp [] ops)).
+Proof. intros A gid gexp ops. apply (eheap_refines A gid gexp ops []), ehwf_nil. Qed.
+Print Assumptions C25_eheap_refines.
+
+(* EMap refines a finite map id -> expiry: over all sequences of add / SetMin / Any, an add with expiry 0 or
+   of a tracked id changes nothing, otherwise it binds the id; Any/Contains answer membership; SetMin t evicts
+   and returns exactly the ids bound to an expiry < t (by increasing expiry) and keeps the others. *)
+Theorem C25_emap_refines : forall (ops : list mop),
+  mspec_trace [] ops (snd (em_run em_new ops)).
+Proof. intros ops. apply (emap_refines ops em_new), emwf_new. Qed.
+Print Assumptions C25_emap_refines.
+
+(* ---------- non-vacuity ---------- *)
+Local Open Scope N_scope.
+Example C25_heap_example :
+  map (fun e => (e_id e, e_val e, e_idx e))
+      (fst (hrun unit true [] [HPush unit 1 tt 30%Z; HPush unit 2 tt 10%Z; HPush unit 3 tt 20%Z; HPush unit 2 tt 5%Z;
+                               HPush unit 4 tt 10%Z; HRemove unit 1%nat; HPop unit]))
+  = [(3, 20%Z, 0%nat); (1, 30%Z, 1%nat)].
+Proof. vm_compute. reflexivity. Qed.
+Example C25_eheap_example :
+  snd (eh_run (N * Z) fst snd [] [EAdd _ (1, 30%Z); EAdd _ (2, 10%Z); EAdd _ (2, 40%Z); EAdd _ (3, 10%Z);
+                                   ERemove _ 3; ESetMin _ 20%Z; EPeek _])
+  = [OUnit _; OUnit _; OUnit _; OUnit _; OOpt _ (Some (3, 10%Z)); OList _ [(2, 10%Z)]; OOpt _ (Some (1, 30%Z))].
+Proof. vm_compute. reflexivity. Qed.
+Example C25_emap_example :
+  snd (em_run em_new [MAdd 1 30%Z; MAdd 2 10%Z; MAdd 3 0%Z; MAdd 2 40%Z; MAdd 4 10%Z; MAny [3]; MSetMin 20%Z; MAny [2; 1]])
+  = [MUnit; MUnit; MUnit; MUnit; MUnit; MBool false; MIds [2; 4]; MBool true].
+Proof. vm_compute. reflexivity. Qed.
